@@ -35,6 +35,14 @@ def run(tier, seed):
         gate[k] += gate_run[k]
     gate["theorems"] = gate["theorems"] + gate_run["theorems"]
     gate["axioms"].update(gate_run["axioms"])
+    # the refinement theorems (Properties/LifeRefines.v: the unit-life machine refines the executor protocol,
+    # C01 / C02 / C10 with wf_history derived from it) are built and audited with this property as well
+    gate_life = vlib.coq_gate("LifeRefines")
+    vlib.gate_or_violation(chk, gate_life)
+    for k in ("obligations", "discharged"):
+        gate[k] += gate_life[k]
+    gate["theorems"] = gate["theorems"] + gate_life["theorems"]
+    gate["axioms"].update(gate_life["axioms"])
     binary, err = vlib.build_harness()
     if binary is None:
         chk.violation("broken-obligation", "harness-build", dict(error=err), no_input=True)
